@@ -59,8 +59,9 @@ TEXTS = {
                 level_text=("Kernel-checked theorem C06_memoize_same_result_partial (Proofs/Sim2.lean, Proofs/MemoSound.lean): for every grammar with unique node identifiers and no throw/recover, every code environment whose blocks are pure functions of text and pos and take no label arguments (predicate blocks not looking at pos/text), every input and every pair of depths, "
                             "Parse with Memoize(true) and with Memoize(false) return the same value and the same error list (standard template without left-recursion support, no budget); the invariant is that every memo entry is what the un-memoized parser computes at that offset from ANY state (locality theorem), with its errors already reported. "
                             "The two hypotheses beyond C06's own are necessary: with label arguments the statement is false (finding D7), with predicates that read c.pos/c.text it is false (finding D27, found while doing this proof); both have kernel-evaluated witnesses on the model and deterministic replays on the real runtime. With left recursion: finding D26. "
-                            "Every generated case is also run on the real generated parser with Debug, Statistics and (for terminating grammars) Memoize flipped and compared on the property's own terms; the packrat bound exprCnt <= nodes*(len+1) is checked on every memoized run. The model has no input for Debug/Statistics at all."),
-                level_note=RT_NOTE + " Level 'other': theorem on a sub-domain (label-free, position-blind predicates, no left recursion) + differential twins on the whole domain; the work bound is checked per run, not proved."),
+                            "WORK BOUND, kernel-checked (C06_packrat_bound_partial, Proofs/MemoCount.lean): Memoize(true), unique node identifiers, no throw/recover, no same-position cycle (closed nullability oracle + ranking along the first graph; nothing assumed of the code blocks) - a parse that returns has ExprCnt <= nodes*(len+1); the invariant: the .expr keys of the memo table are pairwise distinct and ExprCnt equals their number. And the memoized parser returns wherever the plain one does, at the same depth (C06_memoized_terminates_if_plain_does_partial). "
+                            "Every generated case is also run on the real generated parser with Debug, Statistics and (for terminating grammars) Memoize flipped and compared on the property's own terms; the packrat bound is checked on every memoized run by an oracle as well. The model has no input for Debug/Statistics at all."),
+                level_note=RT_NOTE + " Level 'other': theorems on sub-domains (result: label-free, position-blind predicates, no left recursion; bound: no same-position cycle) + differential twins and the bound oracle on the whole domain."),
     "C10": dict(technique="Lean 4 theorem (function equality of the two template instantiations) + variant-pair execution",
                 design_ref="DESIGN.md §5 C10",
                 level_text=("Kernel-checked theorem C10_equiv: for every grammar (left-recursive included), code environment, input and option set with Memoize off, the optimized and the standard instantiation of the runtime model "
